@@ -50,6 +50,57 @@ def edited_programs():
                 m.u2 = leaf()(a=m.v, b=m.w)
                 return m
             yield (f"edited/x:{k1}->{k2}", b)
+    # an object the module already holds assigned under a second name (`m.b = m.a`), for every kind; a module and one of
+    # its descendants under one name; two ExternalModule objects of one domain and name (identical / contradictory)
+    for kind in ("signal", "port", "instance", "array"):
+        def ba(kind=kind):
+            m = h.Module(name="Aliased")
+            m.v, m.w = h.Signal(), h.Signal()
+            if kind in ("signal", "port"):
+                obj = h.Signal() if kind == "signal" else h.Port()
+                m.a = obj
+                m.b = obj
+                m.u = leaf()(a=obj, b=m.v)
+                m.u3 = leaf()(a=m.b, b=m.w)
+            elif kind == "instance":
+                m.i = leaf()(a=m.v, b=m.w)
+                m.j = m.i
+            else:
+                m.bus = h.Signal(width=2)
+                m.i = 2 * leaf()(a=m.bus, b=m.w)
+                m.j = m.i
+            return m
+        yield (f"edited/aliased-{kind}", ba)
+
+    def same_named_descendant(depth):
+        def b():
+            c = h.Module(name="SameName")
+            c.p = h.Port()
+            c.u = leaf()(a=c.p, b=c.p)
+            mid = c
+            for k in range(depth - 1):
+                nxt = h.Module(name=f"Between{k}")
+                nxt.p = h.Port()
+                nxt.i = mid(p=nxt.p)
+                mid = nxt
+            p = h.Module(name="SameName")
+            p.s = h.Signal()
+            p.i = mid(p=p.s)
+            return p
+        return b
+    for d in (1, 2, 3):
+        yield (f"edited/same-named-descendant/d{d}", same_named_descendant(d))
+    for same in (True, False):
+        def be(same=same):
+            E1 = h.ExternalModule(name="Twice", port_list=[h.Inout(name="a")], desc="", domain="c6")
+            E2 = h.ExternalModule(name="Twice", port_list=[h.Inout(name="a")] + ([] if same else [h.Inout(name="z")]), desc="",
+                                  domain="c6")
+            m = h.Module(name="TwoExt")
+            m.v = h.Signal()
+            m.x = E1()(a=m.v)
+            m.y = E2()(a=m.v) if same else E2()(a=m.v, z=m.v)
+            return m
+        yield (f"edited/external-module-twice/{'identical' if same else 'contradictory'}", be)
 
 
 def edited_after_export_programs():
